@@ -187,7 +187,7 @@ with hash_walk (fuel : nat) (h : heap) (askh : nat)
           if last then Ok (h, ret) else
           match ret with
           | VHash x => hash_walk fuel' h x dotpaths (i + 1) ret setv
-          | VStack b pn sc => stack_walk fuel' h b pn sc (skipn 1 dotpaths) 0 VNull setv   (* sic: dotpaths[1:] *)
+          | VStack b pn sc => stack_walk fuel' h b pn sc (skipn (i + 1) dotpaths) 0 VNull setv   (* dotpaths[i+1:] *)
           | _ => Err ENotRec
           end
         end
